@@ -78,6 +78,30 @@ def gen_riscv(r):
         return r.choice(RV_UNICODE)
     if k < 0.34:
         return r.choice(RV_CSR)
+    if k < 0.46:
+        # memory-heavy personality: loads and stores over a few conflicting blocks (same set, different tags for the
+        # tiny caches of the driver configurations), re-use and write-backs - what the cache tables and the
+        # replacement state depend on
+        stride = r.choice([4, 8, 16, 32, 64, 128])
+        slots = [stride * i for i in range(r.randint(3, 7))]
+        body = ["lui s0, 4", f"addi t0, zero, {r.randint(1, 99)}"]
+        loop = r.random() < 0.4
+        if loop:
+            body += [f"li t2, {r.randint(2, 4)}", "again:"]
+        for _ in range(r.randint(4, 14)):
+            off = r.choice(slots) + r.choice([0, 0, 0, 1, 2])
+            c = r.random()
+            if c < 0.45:
+                body.append(f"{r.choice(['lw', 'lw', 'lh', 'lbu', 'lb'])} {r.choice(['t1', 'a0', 'a1', 'x6'])}, {off - off % 4}(s0)")
+            elif c < 0.85:
+                w = r.choice(['sw', 'sw', 'sh', 'sb'])
+                a = off - off % (4 if w == 'sw' else 2 if w == 'sh' else 1)
+                body.append(f"{w} {r.choice(['t0', 't1', 'a0'])}, {a}(s0)")
+            else:
+                body.append(f"addi t0, t0, {r.randint(1, 9)}")
+        if loop:
+            body += ["addi t2, t2, -1", "bne t2, zero, again"]
+        return "\n".join(body) + "\n"
     lines = []
     data = []
     has_data = r.random() < 0.5
